@@ -116,7 +116,7 @@ static void setup(void)
 	}
 }
 
-static int g_pol; static uint64_t g_seed; static int g_depth; static char g_replay[1 << 16];
+static int g_pol; static uint64_t g_seed; static int g_depth; static char g_replay[1 << 18];
 static int g_sp_cas, g_sp_cv, g_sp_fx;
 
 static void vh_op(int argc, char **argv)
@@ -160,6 +160,7 @@ static void vh_op(int argc, char **argv)
 		vs_set_spurious_futex(g_sp_fx);
 		vs_set_max_steps(5000);
 		int st = vs_run();
+		if (st != VS_OK) vh_request_restart();
 		vs_print(stdout);
 		if (g_kind == K_SPIN || g_kind == K_SYNC || g_kind == K_MUTEX)
 			printf("outcome data=%d exclusion_violations=%d\n", S.data, g_excl_violations);
